@@ -251,6 +251,18 @@ Definition consumed_path (parent : option url) (r : ref) : list bytes :=
   | _, _ => []
   end.
 
+(* the reference without its fragment *)
+Definition drop_frag (r : ref) : ref :=
+  match r with
+  | RAbs u => RAbs (Url (u_scheme u) (u_auth u) (u_path u) (u_query u) None)
+  | RSchemeRel a p q _ => RSchemeRel a p q None
+  | RPathAbs p q _ => RPathAbs p q None
+  | RPathRel p q _ => RPathRel p q None
+  | RQuery q _ => RQuery q None
+  | RFrag _ => RFrag None
+  end.
+Definition is_frag_only (r : ref) : bool := match r with RFrag _ => true | _ => false end.
+
 (* the canonical text of an accepted answer *)
 Definition obs_text (o : outcome) : option bytes :=
   match o with Ok u => Some (render_url u) | _ => None end.
